@@ -13,3 +13,16 @@ Definition generic_chain0 (J : nat) (g1 g2 : C) (q2 q02 p2 p02 d : R) (bw : C) (
   czsum (m_range J2) (fun lR =>
     Cmul (Cmul (vertex_amp 0 (H_sum 0 J2 0 [(Z.of_nat J, J2)] [g1] q2 q02 d lR 0) 0 lR 0 phi1 th1 0) bw)
          (vertex_amp J2 (H_sum J2 0 0 [(Z.of_nat J, 0%Z)] [g2] p2 p02 d 0 0) lR 0 0 phi2 th2 0)).
+
+(* ---- production barrier AFTER the repair of tf_pwa.breit_wigner.Bprime_q2 (hunt round 2, C04 finding 1):
+   the polynomial at the NOMINAL momentum is a normalisation constant and enters by its modulus (it is negative for
+   odd L when q0^2 is sufficiently negative: nominal mass beyond the kinematic limit); the event dependent
+   denominator is always kept.  Code: bp = |P_L(z0)| / P_L(z); sqrt(where(bp > 0, bp, 1)).
+   (Shape.LineShapes.Bprime_q2 is the code before the repair; both agree whenever P_L(z0) >= 0, in particular
+   for every q0^2 >= 0: Bprime_q2_abs_eq_old.) ---- *)
+Definition bp_ratio_abs (L : nat) (q2 q02 d : R) : R := Rabs (bp L (q02 * d ^ 2)) / bp L (q2 * d ^ 2).
+Definition Bprime_q2_abs (L : nat) (q2 q02 d : R) : R :=
+  let r := bp_ratio_abs L q2 q02 d in sqrt (if Rlt_dec 0 r then r else 1).
+Definition res_amp_core_abs (c : C) (J : nat) (q2 q02 p p0 m0R g0R d : R) (mR cth : R) : C :=
+  let f := (-1) ^ J * (sqrt q2 ^ J * Bprime_q2_abs J q2 q02 d) * (p ^ J * Bprime J p p0 d) * legendre J cth in
+  Cmul c (Cscal f (BWR mR m0R g0R p p0 J d)).
